@@ -40,7 +40,19 @@ type c12Case struct {
 	// Pre: calls made on the same channel before the one that is judged (state must not leak from
 	// one call to the next): each is a name and whether it goes through NewStream
 	Pre []c12Call `json:",omitempty"`
+	// Late: the last service is registered only after the preceding calls were served (inproc channel
+	// and httpgrpc.Server; HandleServices registers in bulk once)
+	Late bool `json:",omitempty"`
+	// Creds: the judged call carries per-RPC credentials (which are told the method's URI)
+	Creds bool `json:",omitempty"`
 }
+
+type c12Creds struct{}
+
+func (c12Creds) GetRequestMetadata(ctx context.Context, uri ...string) (map[string]string, error) {
+	return map[string]string{"zz-token": "t"}, nil
+}
+func (c12Creds) RequireTransportSecurity() bool { return false }
 
 type c12Call struct {
 	Name      string
@@ -103,19 +115,35 @@ func propC12(c c12Case) *Outcome {
 	}
 	var conn grpc.ClientConnInterface
 	var closer func()
+	early, late := descs, []*grpc.ServiceDesc(nil)
+	if c.Late && len(descs) > 1 && c.Carrier != cHTTPMux {
+		early, late = descs[:len(descs)-1], descs[len(descs)-1:]
+		o.class("late-registration")
+	}
+	registerLate := func() {}
 	switch c.Carrier {
 	case cInproc:
 		ch := &inprocgrpc.Channel{}
-		for _, d := range descs {
+		for _, d := range early {
 			ch.RegisterService(d, &struct{}{})
+		}
+		registerLate = func() {
+			for _, d := range late {
+				ch.RegisterService(d, &struct{}{})
+			}
 		}
 		conn = ch
 	default:
 		var h http.Handler
 		if c.Carrier == cHTTP {
 			s := httpgrpc.NewServer(httpgrpc.WithBasePath(c.Base))
-			for _, d := range descs {
+			for _, d := range early {
 				s.RegisterService(d, &struct{}{})
+			}
+			registerLate = func() {
+				for _, d := range late {
+					s.RegisterService(d, &struct{}{})
+				}
 			}
 			h = s
 		} else {
@@ -180,6 +208,12 @@ func propC12(c c12Case) *Outcome {
 		ctr.n = map[string]int{} // only the judged call counts
 		ctr.mu.Unlock()
 	}
+	registerLate()
+	var copts []grpc.CallOption
+	if c.Creds {
+		o.class("with-per-rpc-credentials")
+		copts = append(copts, grpc.PerRPCCredentials(c12Creds{}))
+	}
 	var err error
 	panicked := ""
 	stall := guard("call", func() {
@@ -192,7 +226,7 @@ func propC12(c c12Case) *Outcome {
 		defer cancel()
 		if c.ViaStream {
 			var cs grpc.ClientStream
-			cs, err = conn.NewStream(ctx, &grpc.StreamDesc{ClientStreams: true, ServerStreams: true}, c.Name)
+			cs, err = conn.NewStream(ctx, &grpc.StreamDesc{ClientStreams: true, ServerStreams: true}, c.Name, copts...)
 			if err == nil {
 				cs.SendMsg(&pb.Message{})
 				cs.CloseSend()
@@ -206,7 +240,7 @@ func propC12(c c12Case) *Outcome {
 				}
 			}
 		} else {
-			err = conn.Invoke(ctx, c.Name, &pb.Message{}, new(pb.Message))
+			err = conn.Invoke(ctx, c.Name, &pb.Message{}, new(pb.Message), copts...)
 		}
 	})
 	ctr.mu.Lock()
@@ -369,7 +403,9 @@ func genC12(t *rapid.T) c12Case {
 		c.Name = rapid.SampledFrom(all).Draw(t, "other-registered")
 		c.ViaStream = !isUnary[c.Name]
 	}
-	if rapid.IntRange(0, 2).Draw(t, "pre") == 0 {
+	c.Creds = rapid.IntRange(0, 4).Draw(t, "creds") == 0
+	c.Late = rapid.IntRange(0, 4).Draw(t, "late") == 0
+	if c.Late || rapid.IntRange(0, 2).Draw(t, "pre") == 0 {
 		np := rapid.IntRange(1, 3).Draw(t, "npre")
 		for i := 0; i < np; i++ {
 			// the same or another registered name, possibly through the wrong kind of call, or a near miss
